@@ -429,7 +429,11 @@ func getFromObjStm(r Getter, number uint32, sRef Reference, getInt getIntFn, enc
 	// ReadObject leaves it to the caller to recognise "n g R": a member of an
 	// object stream may itself be an indirect reference.
 	if a, ok := obj.(Integer); ok {
-		if ref, ok := contents.s.tryReferenceAfter(a); ok {
+		ref, ok, err := contents.s.tryReferenceAfter(a)
+		if err != nil {
+			return nil, err
+		}
+		if ok {
 			obj = ref
 		}
 	}
@@ -439,29 +443,52 @@ func getFromObjStm(r Getter, number uint32, sRef Reference, getInt getIntFn, enc
 
 // tryReferenceAfter is called after the integer a has been read.  It reports
 // whether the input continues with a generation number and the keyword R.
-func (s *scanner) tryReferenceAfter(a Integer) (Reference, bool) {
-	if err := s.SkipWhiteSpace(); err != nil {
-		return 0, false
+//
+// A failure of the byte source is returned as an error: otherwise the
+// reference would silently be read as the integer a.
+func (s *scanner) tryReferenceAfter(a Integer) (Reference, bool, error) {
+	// the end of the data and syntax errors only mean "not a reference"
+	failed := func(err error) bool {
+		return err != io.EOF && err != io.ErrUnexpectedEOF && IsReadError(err)
 	}
-	buf, _ := s.PeekN(1)
+
+	if err := s.SkipWhiteSpace(); err != nil {
+		if failed(err) {
+			return 0, false, err
+		}
+		return 0, false, nil
+	}
+	buf, err := s.PeekN(1)
+	if failed(err) {
+		return 0, false, err
+	}
 	if len(buf) == 0 || buf[0] < '0' || buf[0] > '9' {
-		return 0, false
+		return 0, false, nil
 	}
 	b, err := s.ReadInteger()
 	if err != nil {
-		return 0, false
+		if failed(err) {
+			return 0, false, err
+		}
+		return 0, false, nil
 	}
 	if err := s.SkipWhiteSpace(); err != nil {
-		return 0, false
+		if failed(err) {
+			return 0, false, err
+		}
+		return 0, false, nil
 	}
-	buf, _ = s.PeekN(2)
+	buf, err = s.PeekN(2)
+	if failed(err) {
+		return 0, false, err
+	}
 	if len(buf) == 0 || buf[0] != 'R' || (len(buf) > 1 && class[buf[1]] == regular) {
-		return 0, false
+		return 0, false, nil
 	}
 	if a < 0 || a >= maxXRefSize || b < 0 || b > maxGeneration {
-		return 0, false
+		return 0, false, nil
 	}
-	return NewReference(uint32(a), uint16(b)), true
+	return NewReference(uint32(a), uint16(b)), true, nil
 }
 
 func (r *Reader) getID(obj Object) ([][]byte, error) {
